@@ -52,6 +52,10 @@ CLAIMED = {
         text="model-based stateful test: Hypothesis-generated histories (<= 40 operations over 4 named strings mixing 1/2/3/4-byte scalar values: construction, string-set! with every width change at first/middle/last index, fill!, copy! incl. overlapping self copies, substring/copy/append, list/vector/utf8 conversions with ranges, map/for-each/upcase, comparisons, input and output string ports, cursor walks in both directions) rendered as a program that prints after every step the result and, for every string, its length, code points and UTF-8 bytes; compared with a Python list-of-code-points model (UTF-8 via Python's encoder); a quarter of the shards run on the ASan build with the poisoned heap; plus a sweep of scalar values through char->string->utf8->string->char (exhaustive in the thorough tier); exploration only",
         note="trusted: Python's UTF-8 codec and list model; string-set! on literals and reads from an input string port whose string was mutated are not generated (R7RS: error / unspecified)",
         technique="model-based stateful property-based testing (Hypothesis) against a code-point-array model, plus exhaustive sweep"),
+    "C15": dict(
+        text="(i) Hypothesis families of abstract values (integers incl. bignums, ratios, flonums, chars, strings, symbols, bytevectors, nested lists/vectors to depth 3), each realised through 2-7 independent computation routes (arithmetic leaving spare bignum words, string mutation with width changes, ports, utf8, append/reverse, vector-set! ...): all routes pairwise equal? (eqv? for numbers/chars/symbols) with equal (srfi 69) hash and string-hash, different abstract values never equal?; equal? on circular lists must terminate with the answer computed in Python; (ii) Hypothesis histories (<= 120 steps incl. bulk inserts/deletes of up to 240 keys forcing repeated growth) on SRFI 69 tables with equal?/eqv?/string=? equivalence and equal-but-not-eq duplicate keys against a Python dict keyed by equivalence class; exploration only",
+        note="trusted: Python dict/Fraction; eqv? on NaN not asserted; iteration order never compared; the (srfi 128) default hash and (srfi 125) names are not exercised (SRFI 69 layer only)",
+        technique="property-based testing: metamorphic route-equivalence for equal?/hash coherence + model-based stateful testing of hash tables (Hypothesis)"),
 }
 
 NOT_YET = "check not built yet in this session (planned, see DESIGN.md section 4)"
